@@ -147,12 +147,13 @@ def _sublengths_code(rng, bounds, layout):
         layout.features.add('C-base-prefix')
     return specs
 
-def generate(rng, snap, start, end, handle_rst=False, wrap=False, annotate=0, allow_ignored=True, sizes=None):
+def generate(rng, snap, start, end, handle_rst=False, wrap=False, annotate=0, allow_ignored=True, sizes=None, allow_dots=False):
     """snap: mutable list of 65536 ints (regions for `s` blocks may be overwritten with a constant).
     annotate: 0 none, 1 instruction comments/titles, 2 everything (D/R/N/E, dot/colon lines, @ directives, > blocks)."""
     from skoolkit.disassembler import Disassembler
     dis = Disassembler(snap, _Cfg(handle_rst, wrap))
     lay = Layout()
+    lay.allow_dots = allow_dots      # manual line breaks (dot directives) survive skool2ctl only with -k
     L = lay.lines
     addr = start
     sizes = sizes or [1, 2, 3, 5, 8, 13, 21, 40, 64, 100, 200]
@@ -281,6 +282,9 @@ def _subblocks(rng, snap, dis, lay, bctl, start, end, annotate):
             L.append('M %d%s %s' % (a, rng.choice(['', '', ',,1']), textgen.sentence(rng, 2, 10)))
             lay.features.add('M-directive')
             pend_m = a
+        if annotate >= 2 and a > start and rng.random() < 0.1:
+            textgen.mid_block_comment(rng, lay, a)
+            pend_m = None
         dname = sctl if (sctl != default or rng.random() < 0.5) else ' '
         line = '%s %s%s%s' % (dname, _addr(rng, a), (',' + spec) if spec else '', comment)
         L.append(line)
